@@ -695,11 +695,71 @@ def run(prog, rep):
             "descriptor is dropped" % (line(_brt[0][1]), _brt[0][2], _brt[0][0].name) if _brt else "fewer result tests than expected (%d)" % _nrt), _brt[0][1] if _brt else _ru.functions[sorted(_ru.functions)[0]].loc[0])
     check_error_contract(rep, "C10.1", prog, ['psocket.c'], 50)
     check_zero_init(rep, "C10.5", prog, ['psocket.c'], 1)
+    # the connected getter after a completed non-blocking connect: p_socket_check_connect_result records the verdict it returns -
+    # once SO_ERROR was read, `connected` is stored on every path and holds exactly (SO_ERROR == 0), so a refused attempt on a
+    # socket that was marked connected before does not leave the getter saying TRUE
+    _cr = _ru.fn("p_socket_check_connect_result").inlined()
+    _gs = [c_ for (b_, i_, c_) in _cr.calls() if c_.get("callee") == "getsockopt"]
+    if len(_gs) != 1:
+        raise AnalysisBroken("p_socket_check_connect_result: expected one getsockopt call, found %d" % len(_gs))
+    _val = root_var(_gs[0]["args"][3])
+    _gk = guards.key(_gs[0])
+    _bad = []
+    _nret = [0]
+    _exprs = []
+
+    def _cs(st, b_, i_, stmt):
+        facts, seen, stored = st
+        if any(x is _gs[0] for x in calls(stmt)):
+            seen = True
+        for n_ in walk(stmt):
+            if n_["k"] == "asg":
+                l_ = strip_casts(n_["l"])
+                if l_ is not None and l_["k"] == "member" and l_["field"] == "connected":
+                    v_ = guards.eval_const(n_["r"], facts)
+                    if v_ is None:
+                        _exprs.append(n_["r"])
+                        stored = ("e", len(_exprs) - 1)
+                    else:
+                        stored = ("c", 1 if v_ else 0)
+        if stmt["k"] == "ret" and seen and not guards.contradicts(facts, _gk, ">=", 0) and guards.lookup(facts, _gk) != -1:
+            for (sv, want) in ((0, 1), (111, 0)):
+                f_ = guards.add_fact(facts, _val, "==", sv)
+                if f_ is None:
+                    continue
+                _nret[0] += 1
+                if stored is None:
+                    got = None
+                elif stored[0] == "c":
+                    got = stored[1]
+                else:
+                    got = guards.eval_const(_exprs[stored[1]], f_)
+                    got = None if got is None else (1 if got else 0)
+                if got != want:
+                    _bad.append((line(stmt), sv, got))
+        return [(guards.transfer(facts, stmt), seen, stored)]
+
+    def _ce(st, b_, to, on):
+        f2 = guards.edge_assume(st[0], b_, on)
+        return None if f2 is None else (f2, st[1], st[2])
+    Flow(_cr, [(guards.EMPTY, False, None)], _cs, _ce).run()
+    if not _nret[0]:
+        raise AnalysisBroken("p_socket_check_connect_result: no return after a successful getsockopt found")
+    rep.ob("C10.5", _cr, "connected:so_error", not _bad,
+           "on each of the %d (return, SO_ERROR) cases after a successful getsockopt `connected` was stored as (SO_ERROR == 0)" % _nret[0] if not _bad else
+           "line %d: returns with SO_ERROR == %d read but `connected` %s: the connected getter does not reflect the outcome of the attempt"
+           % (_bad[0][0], _bad[0][1], "not stored on this path (it keeps its earlier value)" if _bad[0][2] is None else "stored as %d" % _bad[0][2]), _cr.loc[0])
 
 # generic robustness battery: renaming every local/parameter in these files must not change any verdict
 RENAME_LOCALS = ['src/psocket.c']
 
 SELFTEST = [
+    dict(id="check-connect-result-keeps-connected", file="src/psocket.c", expect="C10.5",
+         old="\t\t\t\t     \"Error in socket layer\");\n\n\tsocket->connected = (val == 0);\n\n\treturn (val == 0);",
+         new="\t\t\t\t     \"Error in socket layer\");\n\n\tif (val != 0)\n\t\treturn FALSE;\n\n\tsocket->connected = TRUE;\n\n\treturn TRUE;"),
+    dict(id="check-connect-result-store-split-neutral", file="src/psocket.c", expect=None,
+         old="\t\t\t\t     \"Error in socket layer\");\n\n\tsocket->connected = (val == 0);\n\n\treturn (val == 0);",
+         new="\t\t\t\t     \"Error in socket layer\");\n\n\tif (val != 0) {\n\t\tsocket->connected = FALSE;\n\t\treturn FALSE;\n\t}\n\n\tsocket->connected = TRUE;\n\n\treturn TRUE;"),
     dict(id="keepalive-success-read-as-failure", file="src/psocket.c", expect="C10.5",
          old="SO_KEEPALIVE, &value, sizeof (value)) < 0) {", new="SO_KEEPALIVE, &value, sizeof (value)) <= 0) {"),
     dict(id="shutdown-read-only-closes-both", file="src/psocket.c", expect="C10.2", count=1,
